@@ -49,10 +49,12 @@ ModNames(P) == {m.name : m \in Mods(P)}
 ModRec(P, n) == CHOOSE m \in Mods(P) : m.name = n
 ItemOfProc(pr) == ProcItem(pr.mod, pr.name)
 ProcRecOf(P, it) == CHOOSE pr \in Procs(P) : pr.mod = it.scope /\ pr.name = it.local
-IfaceNames(P, mn) == {i.name : i \in Range(ModRec(P, mn).ifaces)}
-IfaceRec(P, it) == CHOOSE i \in Range(ModRec(P, it.scope).ifaces) : i.name = it.local
+\* (module records built by other specifications may lack the field: no interfaces then)
+IfacesOf(m) == IF "ifaces" \in DOMAIN m THEN m.ifaces ELSE <<>>
+IfaceNames(P, mn) == {i.name : i \in Range(IfacesOf(ModRec(P, mn)))}
+IfaceRec(P, it) == CHOOSE i \in Range(IfacesOf(ModRec(P, it.scope))) : i.name = it.local
 AllItems(P) == {ModItem(m.name) : m \in Mods(P)} \cup {ItemOfProc(pr) : pr \in Procs(P)}
-               \cup UNION {{IntfItem(m.name, i.name) : i \in Range(m.ifaces)} : m \in Mods(P)}
+               \cup UNION {{IntfItem(m.name, i.name) : i \in Range(IfacesOf(m))} : m \in Mods(P)}
 ItemExists(P, it) == it \in AllItems(P)
 
 \* file that contains the definition of an item
@@ -263,7 +265,7 @@ FileEdges(P, E) == {<<FileOf(P, e[1]), FileOf(P, e[2])>> : e \in {d \in E : File
 RECURSIVE ExportedNames(_, _, _)
 ExportedNames(P, mn, d) ==
   LET m == ModRec(P, mn)
-      own == Range(m.vars) \cup {pr.name : pr \in {q \in Procs(P) : q.mod = mn}} \cup {i.name : i \in Range(m.ifaces)}
+      own == Range(m.vars) \cup {pr.name : pr \in {q \in Procs(P) : q.mod = mn}} \cup {i.name : i \in Range(IfacesOf(m))}
   IN IF d = 0 THEN own
      ELSE own \cup UNION {IF im.only = <<>> THEN (IF im.mod \in ModNames(P) THEN ExportedNames(P, im.mod, d - 1) ELSE {})
                                             ELSE Range(im.only) : im \in Range(m.imports)}
@@ -274,7 +276,7 @@ BroughtIn(P, imps) ==
 \* (e.g. module m1 with `use m2` must not define a procedure that m2 also defines)
 NoUseClash(P) ==
   /\ \A m \in Mods(P) :
-        (Range(m.vars) \cup {pr.name : pr \in {q \in Procs(P) : q.mod = m.name}} \cup {i.name : i \in Range(m.ifaces)})
+        (Range(m.vars) \cup {pr.name : pr \in {q \in Procs(P) : q.mod = m.name}} \cup {i.name : i \in Range(IfacesOf(m))})
            \cap BroughtIn(P, m.imports) = {}
   /\ \A pr \in Procs(P) : pr.name \notin BroughtIn(P, pr.imports)
 
@@ -282,8 +284,8 @@ NoUseClash(P) ==
 \* USE..ONLY inside the calling procedure (host-level or unqualified access to an interface is outside the fragment)
 IfacesLegal(P) ==
   /\ \A m \in Mods(P) :
-        /\ \A i, j \in DOMAIN m.ifaces : m.ifaces[i].name = m.ifaces[j].name => i = j
-        /\ \A i \in Range(m.ifaces) :
+        /\ \A i, j \in DOMAIN IfacesOf(m) : IfacesOf(m)[i].name = IfacesOf(m)[j].name => i = j
+        /\ \A i \in Range(IfacesOf(m)) :
               /\ i.procs # <<>>
               /\ \A p \in Range(i.procs) : \E q \in Procs(P) : q.mod = m.name /\ q.name = p
               /\ i.name \notin Range(m.vars) /\ i.name \notin ModNames(P)
